@@ -65,6 +65,26 @@ CHECKS.update({
         text='Bounded model checking of the message-bus machine HplMonitor.tla: for 180 property shapes (all scopes, all patterns, the split event a disjunction, aliases, predicates over the payload, time bounds) the REAL canonical_form output is projected and given to TLC as a constant; TLC explores every timed trace up to the length bound over 6 topics x 2 payloads x time increments and checks in every state Sat(orig) <=> all parts satisfied, under both readings of scope re-activation, and the same for the spec\'s own CanonicalForm; three deliberately wrong decompositions must each produce a counterexample.',
         note='Trace semantics of HplMonitor are a modelling decision (strong finite-trace reading; docs are informal); bounds in the evidence.',
         technique='TLC bounded model checking of HplMonitor with the implementation output as a constant (MC_Monitor)', design='5/C12'),
+    'C04': dict(
+        text='TLC enumerates a type-directed family of predicates that are well-typed under a message schema (numbers, booleans, strings, arrays, nested messages, arrays of messages, constants; references to the current message, an aliased earlier message and quantified variables, inside indices, sets, ranges, functions and quantifiers); each is parsed inside a property and T_C04 requires acceptance, re-derives with HplTyping that every reference resolves and that the inferred type set contains the schema type, requires type_check_references to succeed and HplAst!WT to hold.',
+        note='One schema family (the message type M of the driver); a generated predicate that HplTyping does not find well-typed is reported as a machinery failure, never as a violation. One recorded finding.',
+        technique='TLC enumeration of a typed family (MC_Shapes) + trace validation against HplTyping (T_C04)', design='5/C04'),
+    'C05': dict(
+        text='TLC enumerates terms with exactly one definite type clash (wrong-typed literal or operator/function result in every argument position of every operator and function, range bounds, set elements, quantifier domain and condition, index; one reference required at two disjoint types; non-boolean predicate root); each is parsed as condition, predicate, inside a property and nested in a conjunction, and T_C05 requires TypeError every time after re-deriving from the signature tables alone (HplStatic!DefiniteClash) that the generated term is a definite clash.',
+        note='A generated term that the spec does not classify as a definite clash is a machinery failure, not a violation.',
+        technique='TLC enumeration of clash-injected terms (MC_TypedGen) + trace validation against HplStatic (T_C05)', design='5/C05'),
+    'C17': dict(
+        text='TLC enumerates properties placing each of 32 references (valid, unknown field at depth 1-3, field/array confusion, leaf type mismatch, literal index at/over the length of a fixed array, aliased roots) in every position of a predicate (top level, index, range bound, set element, function argument, quantifier domain and body); T_C17 decides with HplTyping!PropertyFaults whether type_check_references must succeed or fail and compares; the navigation helpers are compared with the declared field tree, the 8 integer tokens with two\'s-complement bounds built as hexadecimal strings, and token constructors with the ill-formedness rules.',
+        note='One schema family; chains rooted at a quantified variable are not judged.',
+        technique='TLC enumeration of reference placements (MC_Shapes) + trace validation against HplTyping (T_C17)', design='5/C17'),
+    'C18': dict(
+        text='The file machine HplFiles.tla is explored by TLC (every single-member file over all annotation orders/faults, every two-member file over a small annotation set; longer files sampled from the enumerated members); each file is rendered with arbitrary white space and parsed, each member is parsed alone, and T_C18 requires the same ASTs in order, exactly the own annotations, and for one invalid member the same error class as alone.',
+        note='Pool of 11 member properties (7 valid, 4 invalid).',
+        technique='TLC enumeration of file structures (HplFiles) + trace validation (T_C18)', design='5/C18'),
+    'C19': dict(
+        text='HplCli.tla models the command as a state machine whose invariants (exit 0 iff parsed, failure => 1 + diagnostic + no document, document iff asked) are model-checked; recorded runs of hpl.cli.main (in-process, all cases) and of python -m hpl (subprocess sample) over enumerated property texts and files, with and without -p / -o json, are accepted by T_C19 only if they are the observable projection of a behaviour of HplCli, with the outcome fixed by a direct parser call; strict JSON and the field-for-field mirror are decided by an independent attrs walker in the harness.',
+        note='The deep JSON/AST comparison is done by the harness (encode/decode fidelity is outside what TLA+ decides); TLA+ decides the process-level properties.',
+        technique='TLC model checking of HplCli + trace validation of recorded runs (T_C19)', design='5/C19'),
 })
 
 REASON_PENDING = 'check not built yet in this session (planned in DESIGN.md section 5); not claimed until its machinery exists'
